@@ -350,7 +350,11 @@ def gen_case(rng, bad=False):
         kind = rng.choice(['unknown', 'foreign', 'wrongkind', 'not_unknown', 'dunder'])
         cbs = [b for b in blocks[:-1] if b['kind'] != 'S']
         if kind == 'wrongkind' and any(kinds[x] != 'S' for x in names):
-            named.append([rng.choice([x for x in names if kinds[x] != 'S']), rng.choice(['event', 'ifnotinit', 'extevent'])])
+            if rng.random() < 0.4:
+                # the automatically created inverter '_not_NAME' is a combinational block as well
+                named.append(['_not_' + rng.choice(names), rng.choice(['event', 'ifnotinit'])])
+            else:
+                named.append([rng.choice([x for x in names if kinds[x] != 'S']), rng.choice(['event', 'ifnotinit', 'extevent'])])
         elif cbs:
             b = rng.choice(cbs)
             r = {'unknown': ['name', 'nosuch'], 'foreign': ['foreign'],
